@@ -87,12 +87,28 @@ def parsePayment (s : String) : Option Payment :=
            sourceAmt := ← parseCoinsD sa, targetAmt := ← parseCoinsD ta }
   | _ => none
 
+/-- an account name as the op line spells it: `A` (canonical lower-case bech32), `A^` (the same
+account in upper case), `A~` (mixed case: not valid bech32). -/
+def parseSpelled (w : String) : Spelled :=
+  if w.endsWith "^" then ⟨String.ofList w.toList.dropLast, .upper⟩
+  else if w.endsWith "~" then ⟨String.ofList w.toList.dropLast, .mixed⟩
+  else ⟨w, .lower⟩
+
+/-- a single address field of a message whose handler parses it (`AccAddressFromBech32`) before
+anything else: only the account matters. -/
+def getAcct (ws : List String) (k : String) : Addr := (parseSpelled ((kv ws k).getD "-")).acct
+
 /-- `A:coins;B:coins` -/
 def parseEntries (s : String) : Option (List (Addr × Coins)) :=
   (splitList s ";").mapM fun e =>
     match e.splitOn ":" with
     | [a, cs] => (parseCoinsD cs).map fun cs => (a, cs)
     | _ => none
+
+/-- account/amount entries of a message: every account string is parsed (`AccAddressFromBech32`)
+where it is used, so only the account matters (`A^` = `A`). -/
+def parseAcctEntries (s : String) : Option (List (Addr × Coins)) :=
+  (parseEntries s).map fun es => es.map fun e => ((parseSpelled e.1).acct, e.2)
 
 def parseNats (s : String) : Option (List Nat) := (splitList s).mapM parseNat?
 
@@ -163,18 +179,18 @@ def parseOp (ws : List String) : Option Op :=
     pure (.commit (getD r "acct") (← parseNat? (getD r "m")) (← parseCoinsD (getD r "amount"))
       (← parseOptCoin (getD r "cfee")))
   | "release" :: r => do
-    pure (.release (getD r "admin") (← parseNat? (getD r "m")) (← parseEntries (getD r "entries")))
+    pure (.release (getD r "admin") (← parseNat? (getD r "m")) (← parseAcctEntries (getD r "entries")))
   | "csettle" :: r => do
-    pure (.csettle (getD r "admin") (← parseNat? (getD r "m")) (← parseEntries (getD r "in"))
-      (← parseEntries (getD r "out")) (← parseEntries (getD r "fees")))
+    pure (.csettle (getD r "admin") (← parseNat? (getD r "m")) (← parseAcctEntries (getD r "in"))
+      (← parseAcctEntries (getD r "out")) (← parseAcctEntries (getD r "fees")))
   | "pay" :: r => do pure (.pay (← parsePaymentKV r))
   | "accept" :: r => do pure (.accept (← parsePaymentKV r))
-  | "reject" :: r => some (.reject (getD r "tgt") (getD r "src") (getD r "ext"))
-  | "rejectall" :: r => some (.rejectAll (getD r "tgt") (splitList (getD r "srcs")))
-  | "cancelpay" :: r => some (.cancelPay (getD r "src") (splitList (getD r "exts")))
+  | "reject" :: r => some (.reject (getAcct r "tgt") (getAcct r "src") (getD r "ext"))
+  | "rejectall" :: r => some (.rejectAll (getAcct r "tgt") ((splitList (getD r "srcs")).map parseSpelled))
+  | "cancelpay" :: r => some (.cancelPay (getAcct r "src") (splitList (getD r "exts")))
   | "retarget" :: r =>
-    let t := getD r "tgt"
-    some (.retarget (getD r "src") (getD r "ext") (if t = "-" then "" else t))
+    let t := getAcct r "tgt"
+    some (.retarget (getAcct r "src") (getD r "ext") (if t = "-" then "" else t))
   | "close" :: r => do pure (.closeMarket (← parseNat? (getD r "m")))
   | "send" :: r => do pure (.send (getD r "from") (getD r "to") (← parseCoinsD (getD r "coins")))
   | _ => none
@@ -259,7 +275,8 @@ def expectedDelta (op : Op) (prev : ImplDump) : Option Delta :=
     | some x => some fun a d => if x.source = a then - Coins.amountOf x.sourceAmt d else 0
     | none => none
   | .rejectAll t srcs =>
-    let ps := prev.payments.filter fun x => x.target = t ∧ srcs.contains x.source
+    -- every payment to the target of an account the list names, however often / however spelled
+    let ps := prev.payments.filter fun x => x.target = t ∧ (srcs.map (·.acct)).contains x.source
     some fun a d => - Spec.sumOver ps fun x => if x.source = a then Coins.amountOf x.sourceAmt d else 0
   | .cancelPay src exts =>
     let ps := prev.payments.filter fun x => x.source = src ∧ exts.contains x.extId
